@@ -247,6 +247,11 @@ Theorem C08_min_max_dispatch :
   b_min (VNum c e :: r) = min_num (c, e) r /\ b_min (VStr s :: r) = min_str s r /\
   b_max false (VNull :: r) = VNull /\ b_min (VNull :: r) = VNull /\ b_max false (VBool true :: r) = VNull /\ b_min (VBool true :: r) = VNull.
 Proof. exact min_max_dispatch. Qed.
+(* partial: membership only; that the results are exactly the most frequent values in ascending order is checked by the correspondence, not proved *)
+Theorem C08_mode_members_partial :
+  forall n ns, exists rs,
+  b_mode (map vnum (n :: ns)) = VList (map vnum rs) /\ (forall r, In r rs -> In r (n :: ns)).
+Proof. exact mode_members_partial. Qed.
 
 Example C08_nonvacuous :
   let l := VList [VNum 1 0; VNum 10 (-1); VNull; VList [VNum 2 0]; VNum 1 0] in
@@ -317,4 +322,5 @@ Print Assumptions C08_orig_named_mean_refuted.
 Print Assumptions C08_max_strings.
 Print Assumptions C08_min_strings.
 Print Assumptions C08_min_max_dispatch.
+Print Assumptions C08_mode_members_partial.
 Print Assumptions C08_nonvacuous.
